@@ -6,7 +6,7 @@ import PyxModel.Prebuild.Chain
 import PyxModel.Prebuild.Recipe
 
 /-! driver commands of property C06:
-      (c06 (ctx classes funcs ees enums consts params self) <BodyNode tree>)
+      (c06 (ctx classes funcs ees enums consts params self) <BodyNode tree> ((event-label "'meaning'")…))
     answer: (((subtype "type")…)  statement-chains  parameter-chains  link-chains  event-data-chains
              (("variable" "type")…))
     where a chain row lists, per element in source order, the index of the element its referential attribute
@@ -134,10 +134,10 @@ end
 def sortNat (xs : List Nat) : List Nat := (xs.toArray.qsort (· < ·)).toList
 
 def handle : List Sexp → Option Sexp
-  | [sym "c06", ctx, body] =>
+  | [sym "c06", ctx, body, evs] =>
     match decTCtx ctx, decBody body with
     | some c, some b =>
-      let cc : Ctx := ⟨c.ees.map (·.1), c.classes.map (·.kl)⟩
+      let cc : Ctx := ⟨c.ees.map (·.1), c.classes.map (·.kl), pairs evs⟩
       let cb := canon cc b
       let acc := accBlock {} cb
       some (list [list ((typeWalk c cb).map encRow),
@@ -147,6 +147,15 @@ def handle : List Sexp → Option Sexp
                   list ((sortNat acc.evts).map fun n => list (rowNextEvt n)),
                   list ((varWalk c cb).map fun r => list [str r.1, match r.2 with | some t => str t | none => sym "none"])])
     | _, _ => some (list [sym "error", sym "undecodable"])
+  | [sym "c06-schema"] =>
+    -- what the GENERATED schema table demands of an instance of each created class, and of each supertype
+    let ends (xs : List (Nat × String)) : Sexp := list (xs.map fun l => list [int l.1, str l.2])
+    some (list [
+      list (createdClasses.map fun cls =>
+        list [str cls, ends (required cls), ends (singleEnds cls),
+              list ((identifiers cls).map fun ks => list (ks.map str))]),
+      list ((supertypes.filter fun s => createdClasses.contains s.1).map fun s =>
+        list [str s.1, int s.2.1, list (s.2.2.map str)])])
   | [sym "c06-recipes"] =>
     some (list (recipes.map fun r =>
       list [str r.cls, list (r.links.map fun l => list [int l.1, str l.2]), str r.name]))
